@@ -568,6 +568,15 @@ func genDispatch(t *rapid.T, q2heavy bool) DCase {
 			DStep{K: "pub", Topic: "a/b", QoS: 2, ID: id, Size: 200},
 			DStep{K: "pubrel"})
 	}
+	if q2heavy {
+		// the receiver role needs subscriptions to hand messages on to: overlapping filters
+		// granted different QoS levels (a message may arrive at the highest of them)
+		st := DStep{K: "sub", Filters: []string{"a/#", "a/b", "#"}[:rapid.IntRange(1, 3).Draw(t, "q2-nf")]}
+		for range st.Filters {
+			st.Codes = append(st.Codes, rapid.SampledFrom([]byte{0, 1, 2}).Draw(t, "q2-code"))
+		}
+		c.Steps = append(c.Steps, st)
+	}
 	for i, n := 0, rapid.IntRange(4, 30).Draw(t, "nsteps"); i < n; i++ {
 		k := rapid.IntRange(0, 19).Draw(t, "k")
 		if q2heavy && k < 6 {
@@ -599,7 +608,7 @@ func genDispatch(t *rapid.T, q2heavy bool) DCase {
 			c.Steps = append(c.Steps, st)
 		case k < 15:
 			q := byte(rapid.IntRange(0, 2).Draw(t, "q"))
-			if q2heavy && rapid.Bool().Draw(t, "force-q2") {
+			if q2heavy && rapid.IntRange(0, 2).Draw(t, "force-q2") == 0 {
 				q = 2
 			}
 			c.Steps = append(c.Steps, DStep{K: "pub", Topic: rapid.SampledFrom(dTopics).Draw(t, "t"), QoS: q, ID: rapid.SampledFrom(ids).Draw(t, "id"), Size: rapid.SampledFrom([]int{6, 20, 200, 3000}).Draw(t, "size"), Dup: q == 2 && rapid.IntRange(0, 4).Draw(t, "firstdup") == 0})
